@@ -202,8 +202,9 @@ def describe_call(name, args, kwargs):
     return d
 
 
-def replay_call(call, limit_s=20):
-    """Re-run a described call under the watchdog; True when it returns (or raises an ordinary exception) within the limit."""
+def replay_call(call, limit_s=20, fail_on_exception=None):
+    """Re-run a described call under the watchdog; True when it returns (or raises an ordinary exception) within the limit.
+    With `fail_on_exception` = an exception type name, raising an exception of that name counts as failing too."""
     import bs4
     import soupsieve as sv
 
@@ -231,8 +232,8 @@ def replay_call(call, limit_s=20):
         return True
     except LibraryDidNotTerminate:
         return False
-    except Exception:       # noqa: BLE001
-        return True
+    except Exception as e:       # noqa: BLE001
+        return not (fail_on_exception and type(e).__name__ == fail_on_exception)
 
 
 def install_watchdog(limit_s):
@@ -272,6 +273,14 @@ def install_watchdog(limit_s):
                 signal.setitimer(signal.ITIMER_REAL, 0)
                 if not hasattr(e, 'call'):
                     e.call = describe_call(fn.__name__, a, k)
+                raise
+            except Exception as e:      # noqa: BLE001
+                # remember which call raised (described only if the exception escapes the whole sweep, see run_check)
+                if not hasattr(e, '_soupverif_call'):
+                    try:
+                        e._soupverif_call = (fn.__name__, a, k)
+                    except Exception:   # noqa: BLE001
+                        pass
                 raise
             finally:
                 signal.setitimer(signal.ITIMER_REAL, 0)
@@ -463,14 +472,15 @@ MODULES = {
     'C02': ['C02', 'C02Site', 'C02Parse'],
     'C03': ['C03', 'C03Wrappers'],
     'C05': ['C05', 'C05Parse'],
+    'C06': ['C06', 'C06Gen'],
     'C07': ['C07', 'C07Parse'],
     'C09': ['C09', 'C09Rx', 'C09Compile', 'C09Compile2'],
-    'C10': ['C10', 'C10Rx', 'C10Parse'],
-    'C11': ['C11', 'C11Parse'],
+    'C10': ['C10', 'C10Rx', 'C10Parse', 'C10Gen'],
+    'C11': ['C11', 'C11Parse', 'C11Gen'],
     'C12': ['C12', 'C12Parse'],
-    'C13': ['C13', 'C13Rx', 'C13Parse'],
-    'C17': ['C17', 'C17Dir', 'C17Parse'],
-    'C18': ['C18', 'C18Range', 'C18Rx', 'C18Parse'],
+    'C13': ['C13', 'C13Rx', 'C13Parse', 'C13Gen'],
+    'C17': ['C17', 'C17Dir', 'C17Parse', 'C17GenRange'],
+    'C18': ['C18', 'C18Range', 'C18Rx', 'C18Parse', 'C18Gen', 'C18GenRange'],
     'C19': ['C19', 'C19Rx', 'C19Parse'],
     'C20': ['C20', 'C20Rx', 'C20Parse'],
 }
@@ -479,14 +489,15 @@ AUDITS = {
     'C02': ['C02', 'C02Site', 'C02Parse'],
     'C03': ['C03', 'C03Wrappers'],
     'C05': ['C05', 'C05Parse'],
+    'C06': ['C06', 'C06Gen'],
     'C07': ['C07', 'C07Parse'],
     'C09': ['C09', 'C09Rx', 'C09Compile', 'C09Compile2'],
-    'C10': ['C10', 'C10Rx', 'C10Parse'],
-    'C11': ['C11', 'C11Parse'],
+    'C10': ['C10', 'C10Rx', 'C10Parse', 'C10Gen'],
+    'C11': ['C11', 'C11Parse', 'C11Gen'],
     'C12': ['C12', 'C12Parse'],
-    'C13': ['C13', 'C13Rx', 'C13Parse'],
-    'C17': ['C17', 'C17Dir', 'C17Parse'],
-    'C18': ['C18', 'C18Range', 'C18Rx', 'C18Parse'],
+    'C13': ['C13', 'C13Rx', 'C13Parse', 'C13Gen'],
+    'C17': ['C17', 'C17Dir', 'C17Parse', 'C17GenRange'],
+    'C18': ['C18', 'C18Range', 'C18Rx', 'C18Parse', 'C18Gen', 'C18GenRange'],
     'C19': ['C19', 'C19Rx', 'C19Parse'],
     'C20': ['C20', 'C20Rx', 'C20Parse'],
 }
